@@ -46,10 +46,10 @@ Print Assumptions C31_model_pred.
    block 10 = {1,2,3} hides 11 = {1,2} and the sources; 12 = {3,4} stays (4 is
    not covered); another group is untouched. *)
 Example C31_nonvacuous :
-  let l := [mk_blk 1 0 [1]; mk_blk 2 0 [2]; mk_blk 3 0 [3]; mk_blk 10 0 [1; 2; 3];
-            mk_blk 11 0 [2; 1]; mk_blk 12 0 [3; 4]; mk_blk 20 1 [1]] in
+  let l := [mk_blk 1 0 [1] 1; mk_blk 2 0 [2] 1; mk_blk 3 0 [3] 1; mk_blk 10 0 [1; 2; 3] 1;
+            mk_blk 11 0 [2; 1] 1; mk_blk 12 0 [3; 4] 1; mk_blk 20 1 [1] 1] in
   NoDup (map bid l) /\ dups l = [11; 1; 2; 3] /\ map bid (kept l) = [10; 12; 20]
-  /\ hidden l (mk_blk 11 0 [2; 1]) = true.
+  /\ hidden l (mk_blk 11 0 [2; 1] 1) = true.
 Proof.
   cbv zeta. split; [|vm_compute; auto].
   simpl. repeat constructor; simpl; intuition congruence.
